@@ -203,6 +203,44 @@ impl Handle {
             }
         }
     }
+    /// The same pool, obtained the way an application does: analyzer `with_config(..)` +
+    /// `init_pool(sender)` + `worker_pool()`.  The configuration values must arrive in the pool
+    /// as given (queue size as queue size, connection capacity as connection capacity).
+    pub fn new_via_analyzer(kind: PoolKind, c: &PoolCfg, filters: Filters) -> Result<Handle, String> {
+        let db = if c.with_db { Some(crate::scenario::db()) } else { None };
+        match kind {
+            PoolKind::Tcp => {
+                let (tx, rx) = channel();
+                let mut a = huginn_net_tcp::HuginnNetTcp::with_config(db, c.max_conn, c.workers, c.queue, c.batch, c.timeout_ms).map_err(|e| e.to_string())?;
+                if let Some(f) = filters.tcp {
+                    a = a.with_filter(f);
+                }
+                a.init_pool(tx).map_err(|e| e.to_string())?;
+                let p = a.worker_pool().ok_or("init_pool left no pool")?;
+                Ok(Handle::Tcp(p, rx))
+            }
+            PoolKind::Http => {
+                let (tx, rx) = channel();
+                let mut a = huginn_net_http::HuginnNetHttp::with_config(db, c.max_conn, c.workers, c.queue, c.batch, c.timeout_ms).map_err(|e| e.to_string())?;
+                if let Some(f) = filters.http {
+                    a = a.with_filter(f);
+                }
+                a.init_pool(tx).map_err(|e| e.to_string())?;
+                let p = a.worker_pool().cloned().ok_or("init_pool left no pool")?;
+                Ok(Handle::Http(p, rx))
+            }
+            PoolKind::Tls => {
+                let (tx, rx) = channel();
+                let mut a = huginn_net_tls::HuginnNetTls::with_config_and_max_connections(c.workers, c.queue, c.batch, c.timeout_ms, c.max_conn);
+                if let Some(f) = filters.tls {
+                    a = a.with_filter(f);
+                }
+                a.init_pool(tx).map_err(|e| e.to_string())?;
+                let p = a.worker_pool().ok_or("init_pool left no pool")?;
+                Ok(Handle::Tls(p, rx))
+            }
+        }
+    }
     /// true = Queued
     pub fn dispatch(&self, frame: Vec<u8>) -> bool {
         match self {
